@@ -126,6 +126,11 @@ def one(ctx, drv, i, prof, case, normalize):
     errs = out.errors
     jcase = dict(real.enc_case(case), normalize=normalize)
     flat = real.flatten(errs)
+    if i % 2 == 1:
+        try:
+            out.v.errors        # reading the errors property must not disturb the trees
+        except Exception:
+            pass
     msg = oracle(ctx, jcase, out.v, out.ret, errs)
     if msg:
         ctx.fail('C11 oracle: ' + msg, jcase)
